@@ -51,7 +51,9 @@ class LindbladForm(RedfieldRelaxationTensor):
         if sbi is None:
             KK = numpy.zeros((1, Na, Na), dtype=REAL)
         else:
-            KK = sbi.KK
+            # the operators of the tensor are transformed between bases 
+            # independently of the system-bath interaction they come from
+            KK = sbi.KK.copy()
             
         self._post_implementation(KK, llm, lld)
 
